@@ -21,7 +21,15 @@ fn main() {
                     continue;
                 }
                 let s: serde_json::Value = serde_json::from_str(&line).expect("script json");
-                let ev = ops::exec(&s);
+                let ev = match std::panic::catch_unwind(|| ops::exec(&s)) {
+                    Ok(ev) => ev,
+                    Err(_) => {
+                        // the harness itself failed on this script line: a tool error, never a verdict
+                        let mut o = s.as_object().cloned().unwrap_or_default();
+                        o.insert("res".into(), serde_json::json!({"t":"harness-error"}));
+                        serde_json::Value::Object(o)
+                    }
+                };
                 serde_json::to_writer(&mut out, &ev).unwrap();
                 out.write_all(b"\n").unwrap();
                 n += 1;
